@@ -48,7 +48,13 @@ P = dict(
           "at every position; chained expressions (set().reset(p), reset().set(p), flip().flip(p), set(p).flip(q), reset(p).set(q,v), "
           "flip(p).reset(q), (b[p]=v).flip(), b[p].flip()=v, b[p]=b[q]=v; every modifier result is bound as a forwarding reference and must "
           "be an E& / proxy& designating the object itself); set(), reset(), flip(), ~, copy and the same-object forms b&=b, b|=b, b^=b, "
-          "b&b, b|b, b^b (each also twice in a row; b==b and b!=b are observers); &=, |=, ^=, &, |, ^ with every value b of the "
+          "b&b, b|b, b^b (each also twice in a row; b==b and b!=b are observers); long-lived proxies: b[i], b[j] (same position / same word / "
+          "other word), a proxy copy-constructed from b[i] and a proxy of a DIFFERENT bitset are held across every owner modifier (nothing, "
+          "set(), reset(), flip(), b=~b, set/reset/flip(pos) resp. unchecked_*, &=, |=, ^=, ^=self, assignment from and swap with another "
+          "bitset, a second proxy's flip/=val/=b[j], shifts where provided), then read (bool, ~), written, flipped, assigned to each other "
+          "in both directions, used as source for b[k], written through the copy, assigned across the two bitsets in both directions, read "
+          "again, and all observers of both bitsets compared - against std::bitset<N>::reference objects held and driven identically "
+          "(widths <= 9: every position; wider: 8 edge positions; the use rotates over the value set); &=, |=, ^=, &, |, ^ with every value b of the "
           "value set, chained (b&=x).flip(), (b|=x)^=x, (b^=x)&=x with every (widths 3..9: every 4th) value; constructor from unsigned long long incl. bits above N; string_view and char const* constructors (lengths N, N-1, "
           "N/2, 1, 0, and in a separate case N+1, N+3; pos 0/2 with junk before and after; n = rest / npos / > rest / < rest; default, "
           "custom, swapped and NUL-as-zero / NUL-as-one characters; every defaulted-argument call form; char and wchar_t; the char const* "
